@@ -268,6 +268,13 @@ REGRESSION = [('sauce-only', record()), ('comment-block-and-record-only', list(b
               ('eof-and-record', [26] + record()), ('one-byte-content', [65, 26] + record()),
               ('count-without-room', [65] * 68 + record(nc=1)), ('count-255-short', [65] * 300 + record(nc=255))]
 
+def cheap_geometry(d):
+    """the record (if any) at the end of d announces a small picture: loading it through a real loader is cheap
+    (a record with height 65535 makes set_sauce allocate 65535 rows: resource use is C03's subject, not C11's)"""
+    if len(d) < 128: return True
+    r = d[len(d) - 128:]
+    return r[96] + 256 * r[97] <= 2000 and r[98] + 256 * r[99] <= 1000
+
 def impl_to_vec(r):
     """implementation result -> the model's observation convention"""
     if r is None: return None
@@ -308,7 +315,7 @@ def write_cases(ctx, n, every_count=False):
 
 def correspondence(ctx):
     table = cp437(ctx.repo)
-    metas = write_cases(ctx, ctx.n(150, 3000), every_count=(ctx.thorough or ctx.escalated))
+    metas = write_cases(ctx, ctx.n(150, 2000), every_count=(ctx.thorough or ctx.escalated))
     wcases = [w_case('w', m, c) for m, c in metas]
     wimpl = ctx.impl(wcases)
     dates = [date_of_tail(r) for r in wimpl]
@@ -321,13 +328,12 @@ def correspondence(ctx):
     small = [w for w in written if len(w[0]) < 1500]
     large = [w for w in written if len(w[0]) >= 1500]
     ctx.rng.shuffle(large)
-    rin = reader_inputs(ctx, small[:ctx.n(120, 2500)] + large[:ctx.n(6, 300)], ctx.n(150, 4000))
+    rin = reader_inputs(ctx, small[:ctx.n(120, 1800)] + large[:ctx.n(6, 100)], ctx.n(150, 3000))
     rin += [(lbl, d) for lbl, d in REGRESSION] + [('date-case', [26] + record(date=d)) for d in DATE_CASES]
     xcases = ['x ' + hx(d) for _, d in rin]
-    xexprs = ['run_x %s' % coq_list(d) for _, d in rin]
-    sexprs = ['run_split %s' % coq_list(d) for _, d in rin]
+    xexprs = ['run_xs %s' % coq_list(d) for _, d in rin]
     ximpl = ctx.impl(xcases)
-    model = ctx.model(IMPORTS, wexprs + xexprs + sexprs, timeout=1500)
+    model = ctx.model(IMPORTS, wexprs + xexprs, timeout=1500)
     nw, nx = len(wexprs), len(xexprs)
     dis = []
     dist = {}
@@ -338,16 +344,17 @@ def correspondence(ctx):
         k = 'write:' + (r[0] if r else 'none') + (':' + str(r[1]) if r and r[0] != 'ok' else '')
         dist[k] = dist.get(k, 0) + 1
     for (lbl, d), c, r, mo in zip(rin, xcases, ximpl, model[nw:nw + nx]):
-        iv, mv = impl_to_vec(r), model_vec(mo)
+        iv, mv = impl_to_vec(r), model_vec(mo[2:] if mo else None)
         if iv is None or mv is None or iv != mv:
             dis.append({'case': c[:4000], 'label': lbl, 'impl': str(r)[:600], 'model': str(mo)[:600]})
         cls = 'none' if iv == [0] else 'some' if iv and iv[0] == 1 else 'err%s' % (iv[1] if iv and len(iv) > 1 else '') if iv and iv[0] == -1 else str(iv)
         dist['read:%s:%s' % (lbl, cls)] = dist.get('read:%s:%s' % (lbl, cls), 0) + 1
     # the split of Buffer::from_bytes: the model's content length, checked differentially on the real loader (bin)
     scases = []; sidx = []
-    for i, ((lbl, d), mo) in enumerate(zip(rin, model[nw + nx:])):
+    for i, ((lbl, d), mo) in enumerate(zip(rin, model[nw:nw + nx])):
         if mo is None or mo[0] < 0:
             dis.append({'case': 'split ' + hx(d)[:4000], 'impl': 'n/a', 'model': str(mo)}); continue
+        if not cheap_geometry(d): continue
         scases.append('split bin %d %s' % (mo[0], hx(d))); sidx.append(i)
     simpl = ctx.impl(scases)
     for c, r in zip(scases, simpl):
@@ -418,7 +425,7 @@ def check_e2e(table, ext, m, r):
     if ext == 'idf': exp.pop('font')      # IDF names its embedded font itself
     bad = compare_carried(exp, got)
     if bad: return ('e2e-%s-metadata-%s' % (ext, bad[0]), 'fields differing from what the variant carries: %s' % bad)
-    wexp = 2 * (m['w'] // 2) if ext == 'bin' else m['w']
+    wexp = (2 * (m['w'] // 2) or 80) if ext == 'bin' else m['w']      # Bin stores w/2; a stored 0 is what the loader treats as 80
     if w1 != wexp: return ('e2e-%s-width' % ext, 'saved width %d loads as %d' % (m['w'], w1))
     if same_defaults and ext != 'icy' and same_pic == 0:
         return ('e2e-%s-picture' % ext, 'picture loaded from content+EOF+SAUCE differs from picture loaded from content alone')
@@ -469,14 +476,14 @@ def search(ctx, broken):
     samples.append(wcases[0][:300])
     # 2. exact cut through the real Buffer::from_bytes (bin loader): loading the file == loading content with the extracted SAUCE
     small = [w for w in written if len(w[0]) < 3000][:ctx.n(400, 5000)]
-    scases = ['split bin %d %s' % (cl, hx(d)) for d, cl in small]
+    scases = ['split bin %d %s' % (cl, hx(d)) for d, cl in small if cheap_geometry(d)]
     for c, r in zip(scases, ctx.impl(scases)):
         if r[0] != 'ok' or r[1][0] != 1 or r[1][1] != 2:
             failures.append({'signature': 'from_bytes-cut-inexact' if r[0] == 'ok' else 'from_bytes-' + r[0], 'input': c, 'impl': str(r),
                              'detail': 'Buffer::from_bytes(content+SAUCE) differs from the loader run on the content with the same SAUCE'})
     # 3. no panic on any input: reader and from_bytes on garbled / truncated / random bytes
     rin = [(l, d) for l, d in REGRESSION] + reader_inputs(ctx, small[:ctx.n(300, 3000)], ctx.n(1500, 40000))
-    xcases = ['x ' + hx(d) for _, d in rin] + ['split bin %d %s' % (len(d), hx(d)) for _, d in rin[:ctx.n(500, 5000)]]
+    xcases = ['x ' + hx(d) for _, d in rin] + ['split bin %d %s' % (len(d), hx(d)) for _, d in rin[:ctx.n(500, 5000)] if cheap_geometry(d)]
     if ctx.thorough or ctx.escalated or True:
         xcases += ['huge 1 0', 'huge 1 100', 'huge 3 150', 'huge 0 0']
     for c, r in zip(xcases, ctx.impl(xcases, per_case_timeout=30, mem_mb=4096)):
